@@ -52,13 +52,14 @@ def _quiet():
     return contextlib.redirect_stderr(io.StringIO())
 
 
-def render(K, R):
-    """K-level value -> mofun.Atoms (through the public constructor)."""
+def render(K, R, positions=None):
+    """K-level value -> mofun.Atoms (through the public constructor).  positions: use this coordinate array (handed to the
+    constructor as it is, e.g. a view of an array another object was built from) instead of rendering K's positions."""
     from mofun import Atoms
     n = len(K["q"])
     kw = dict(
         atom_types=list(K["ty"]),
-        positions=R.vec(K["pos"]) if n else [],
+        positions=positions if positions is not None else (R.vec(K["pos"]) if n else []),
         charges=[q / QUNIT for q in K["q"]],
         groups=list(K["grp"]),
         atom_type_elements=list(K["tel"]),
